@@ -685,3 +685,136 @@ Proof.
   split; [|apply reachable_ck_nonzero].
   apply valid_msgs_sorted. apply (reachable_valid K ops st0 []). apply valid_st0.
 Qed.
+
+(* ---------- what the summary records of its delta: per-actor counts, most frequent first ---------- *)
+Definition count_actor (a : N) (sl : list (N * N)) : N := nlen (filter (fun m => fst m =? a) sl).
+
+Definition hget (a : N) (h : list (N * N)) : N :=
+  match find (fun p => fst p =? a) h with Some p => snd p | None => 0 end.
+
+Lemma bump_get a b h : hget b (bump a h) = if b =? a then hget b h + 1 else hget b h.
+Proof.
+  unfold hget. induction h as [|[x c] h IH]; cbn [bump find fst snd].
+  - destruct (b =? a) eqn:E.
+    + apply N.eqb_eq in E. subst b. rewrite N.eqb_refl. reflexivity.
+    + rewrite (N.eqb_sym a b), E. reflexivity.
+  - destruct (x =? a) eqn:Exa; cbn [find fst snd].
+    + apply N.eqb_eq in Exa. subst x. destruct (b =? a) eqn:E.
+      * apply N.eqb_eq in E. subst b. rewrite N.eqb_refl. reflexivity.
+      * rewrite (N.eqb_sym a b), E. reflexivity.
+    + destruct (x =? b) eqn:Exb.
+      * apply N.eqb_eq in Exb. subst x. rewrite Exa. reflexivity.
+      * exact IH.
+Qed.
+
+Lemma bump_keys a h : NoDup (map fst h) -> NoDup (map fst (bump a h)) /\ (forall x, In x (map fst (bump a h)) <-> x = a \/ In x (map fst h)).
+Proof.
+  induction h as [|[x c] h IH]; intros Hn; cbn [bump map fst].
+  - split; [constructor; [intros []|constructor]|]. intros y. cbn. intuition (subst; auto).
+  - inversion Hn as [|y l Hx Hn']; subst. destruct (x =? a) eqn:E; cbn [map fst].
+    + apply N.eqb_eq in E. subst x. split; [exact Hn|]. intros y. cbn. intuition (subst; auto).
+    + destruct (IH Hn') as [I1 I2]. split.
+      * constructor; [|exact I1]. rewrite I2. intros [->|H]; [rewrite N.eqb_refl in E; discriminate | contradiction].
+      * intros y. cbn [In]. rewrite I2. tauto.
+Qed.
+
+Lemma bump_pos a h : Forall (fun p => 0 < snd p) h -> Forall (fun p => 0 < snd p) (bump a h).
+Proof.
+  induction h as [|[x c] h IH]; intros H; cbn [bump].
+  - constructor; [cbn; lia | constructor].
+  - inversion H as [|y l Hc Hr]; subst. destruct (x =? a); constructor; cbn [snd] in *; try lia; auto.
+Qed.
+
+Definition HistInv (sl : list (N * N)) (h : list (N * N)) : Prop :=
+  NoDup (map fst h) /\ Forall (fun p => 0 < snd p) h /\ forall a, hget a h = count_actor a sl.
+
+Lemma histo_fold_inv : forall sl done h, HistInv done h -> HistInv (done ++ sl) (fold_left (fun h m => bump (fst m) h) sl h).
+Proof.
+  induction sl as [|m sl IH]; intros done h H; cbn [fold_left]; [rewrite app_nil_r; exact H|].
+  replace (done ++ m :: sl) with ((done ++ [m]) ++ sl) by (rewrite <- app_assoc; reflexivity).
+  apply IH. destruct H as [Hn [Hp Hg]]. split; [apply bump_keys, Hn|]. split; [apply bump_pos, Hp|].
+  intros a. rewrite bump_get, Hg. unfold count_actor, nlen. rewrite filter_app, app_length. cbn [filter].
+  destruct (fst m =? a) eqn:E.
+  - apply N.eqb_eq in E. subst a. rewrite N.eqb_refl. cbn [length]. lia.
+  - rewrite (N.eqb_sym a (fst m)), E. cbn [length]. lia.
+Qed.
+
+(* the histogram: one entry per actor that wrote a message of the delta, with the number of its messages *)
+Theorem histo_spec sl : HistInv sl (histo sl).
+Proof.
+  apply (histo_fold_inv sl [] []). split; [constructor|]. split; [constructor|]. intros a. reflexivity.
+Qed.
+
+Lemma hist_insert_perm x l : Permutation (hist_insert x l) (x :: l).
+Proof.
+  induction l as [|y l IH]; cbn [hist_insert]; [apply Permutation_refl|].
+  destruct (hist_leb x y); [apply Permutation_refl|].
+  eapply Permutation_trans; [apply perm_skip, IH | apply perm_swap].
+Qed.
+Lemma hist_sort_perm l : Permutation (hist_sort l) l.
+Proof.
+  induction l as [|x l IH]; cbn [hist_sort fold_right]; [constructor|].
+  eapply Permutation_trans; [apply hist_insert_perm | apply perm_skip, IH].
+Qed.
+
+(* most frequent first, ties by actor *)
+Definition hist_le (x y : N * N) : Prop := snd y < snd x \/ (snd x = snd y /\ fst x <= fst y).
+Lemma hist_leb_le x y : hist_leb x y = true <-> hist_le x y.
+Proof. unfold hist_leb, hist_le. rewrite orb_true_iff, andb_true_iff, N.ltb_lt, N.eqb_eq, N.leb_le. tauto. Qed.
+Lemma hist_le_total x y : hist_leb x y = false -> hist_le y x.
+Proof.
+  unfold hist_leb, hist_le. rewrite orb_false_iff, andb_false_iff, N.ltb_ge, N.eqb_neq, N.leb_gt. lia.
+Qed.
+Lemma hist_le_trans x y z : hist_le x y -> hist_le y z -> hist_le x z.
+Proof. unfold hist_le. lia. Qed.
+
+Lemma hist_insert_sorted x l : StronglySorted hist_le l -> StronglySorted hist_le (hist_insert x l).
+Proof.
+  induction l as [|y l IH]; intros Hs; cbn [hist_insert]; [constructor; constructor|].
+  inversion Hs as [|y' l' Hs' Hy]; subst. destruct (hist_leb x y) eqn:E.
+  - apply hist_leb_le in E. constructor; [exact Hs|]. constructor; [exact E|].
+    eapply Forall_impl; [|exact Hy]. intros z Hz. eapply hist_le_trans; eassumption.
+  - apply hist_le_total in E. constructor; [apply IH, Hs'|].
+    rewrite Forall_forall in *. intros z Hz. apply (Permutation_in _ (hist_insert_perm x l)) in Hz.
+    destruct Hz as [<-|Hz]; [exact E | apply Hy, Hz].
+Qed.
+Lemma hist_sort_sorted l : StronglySorted hist_le (hist_sort l).
+Proof. induction l as [|x l IH]; cbn [hist_sort fold_right]; [constructor|]. apply hist_insert_sorted, IH. Qed.
+
+(* `- delta_actors:` of the model: the first 6 of the per-actor counts of the slice, most frequent first, ties by actor;
+   every entry (a, c) says that exactly c > 0 messages of the slice were written by a *)
+Theorem delta_actors_spec sl :
+  exists rest, Permutation (delta_actors sl ++ rest) (histo sl)
+  /\ StronglySorted hist_le (delta_actors sl ++ rest)
+  /\ (length (delta_actors sl) <= k_actors_shown)%nat
+  /\ (rest <> [] -> length (delta_actors sl) = k_actors_shown)
+  /\ forall a c, In (a, c) (delta_actors sl) -> c = count_actor a sl /\ 0 < c.
+Proof.
+  unfold delta_actors. exists (skipn k_actors_shown (hist_sort (histo sl))). rewrite firstn_skipn.
+  split; [apply hist_sort_perm|]. split; [apply hist_sort_sorted|]. split; [apply firstn_le_length|]. split.
+  - intros Hr. rewrite firstn_length. apply Nat.min_l. destruct (le_lt_dec k_actors_shown (length (hist_sort (histo sl)))) as [H|H]; [exact H|].
+    exfalso. apply Hr. apply skipn_all2. lia.
+  - intros a c Hin. assert (Hi : In (a, c) (histo sl)).
+    { apply (Permutation_in _ (hist_sort_perm (histo sl))). eapply In_firstn, Hin. }
+    destruct (histo_spec sl) as [Hn [Hp Hg]]. split.
+    + rewrite <- Hg. unfold hget.
+      assert (Hf : forall h, NoDup (map fst h) -> In (a, c) h -> find (fun p => fst p =? a) h = Some (a, c)).
+      { induction h as [|[x d] h IH]; intros Hnd Hx; [destruct Hx|]. cbn [find fst]. inversion Hnd as [|y l Hx' Hnd']; subst.
+        destruct Hx as [E|Hx].
+        - injection E as -> ->. rewrite N.eqb_refl. reflexivity.
+        - destruct (x =? a) eqn:E; [|apply IH; assumption]. apply N.eqb_eq in E. subst x. exfalso. apply Hx'.
+          apply in_map_iff. exists (a, c). split; [reflexivity | exact Hx]. }
+      rewrite (Hf _ Hn Hi). reflexivity.
+    + rewrite Forall_forall in Hp. apply (Hp (a, c) Hi).
+Qed.
+
+(* `## Recent Delta Highlights` of the model: the last 12 messages of the slice, in order *)
+Theorem delta_highlights_spec sl :
+  exists pre, sl = pre ++ delta_highlights sl
+  /\ (nlen (delta_highlights sl) <= k_highlights) /\ (pre <> [] -> nlen (delta_highlights sl) = k_highlights).
+Proof.
+  unfold delta_highlights, lastn. destruct (nlen sl <=? k_highlights) eqn:E.
+  - apply N.leb_le in E. exists []. split; [reflexivity|]. split; [exact E|]. intros H. contradiction.
+  - apply N.leb_gt in E. exists (firstn (length sl - N.to_nat k_highlights) sl). rewrite firstn_skipn.
+    split; [reflexivity|]. unfold nlen in *. rewrite skipn_length. split; [lia|]. intros _. lia.
+Qed.
